@@ -8,6 +8,7 @@ from __future__ import annotations
 import json
 import os
 import re
+import time
 from concurrent.futures import ThreadPoolExecutor
 
 from . import common as C
@@ -97,12 +98,12 @@ def pool_jobs(tier, seed):
     n = C.NPROC
     J = []
     if tier == "quick":
-        J += [{"mode": "pool", "gen": "exh", "W": 2, "depth": 2, "part": k, "nparts": n, "sample": 24, "seed": seed,
-               "max": 2000} for k in range(n)]
+        J += [{"mode": "pool", "gen": "exh", "W": 2, "depth": 2, "part": k, "nparts": 6, "sample": 12, "seed": seed,
+               "max": 2000} for k in range(6)]
         J += [{"mode": "pool", "gen": "rules", "per": 1, "seed": seed * 1000 + k, "widths": [1, 2, 4, 8, 32],
-               "max": 2000} for k in range(4)]
-        J += [{"mode": "pool", "gen": "rand", "n": 150, "depth": 4, "seed": seed * 1000 + 500 + k, "max": 2000}
-              for k in range(4)]
+               "max": 2000} for k in range(2)]
+        J += [{"mode": "pool", "gen": "rand", "n": 300, "depth": 4, "seed": seed * 1000 + 500 + k, "max": 2000}
+              for k in range(2)]
     else:
         J += [{"mode": "pool", "gen": "exh", "W": 2, "depth": 2, "part": k, "nparts": n, "sample": 2, "seed": seed,
                "max": 2000} for k in range(n)]
@@ -127,12 +128,14 @@ def check(pid, tier, regen=False):
     plan = [(f, cd) for f in FAMS for cd in (False, True)]
     with ThreadPoolExecutor(max_workers=C.NPROC) as ex:
         models = list(ex.map(lambda p: explore(p[0], p[1], tier), plan))
+    t_explore = round(time.time() - R.t0, 1)
     spec = {m["fam"]: m for m in models if not m["coded"]}
     coded = {m["fam"]: m for m in models if m["coded"]}
 
     jobs, meta = [], []
     n_hist = {}
     predicted = {}
+    todo = {}
     for fam in FAMS:
         al = spec[fam]["al"]
         if coded[fam]["al"] != al:
@@ -143,14 +146,16 @@ def check(pid, tier, regen=False):
         predicted[fam] = len(pred)
         hs = maximal([h for _, h in spec[fam]["hists"]] + pred)
         n_hist[fam] = len(hs)
+        todo[fam] = hs
         jobs.append({"mode": "canon", "fam": fam, "al": al})
         meta.append((fam, None))
-        per = max(1, C.NPROC * 2 // len(FAMS))
-        base = 0
-        for ch in chunks(hs, per if tier == "quick" else per * 3):
-            jobs.append({"mode": "replay", "fam": fam, "al": al, "hists": ch, "base": base})
+    # replay jobs of about equal size (fresh interpreter + one TLC start per job)
+    size = max(150, sum(n_hist.values()) // (C.NPROC - 2 if tier == "quick" else 3 * C.NPROC) + 1)
+    for fam in FAMS:
+        for base in range(0, len(todo[fam]), size):
+            ch = todo[fam][base:base + size]
+            jobs.append({"mode": "replay", "fam": fam, "al": spec[fam]["al"], "hists": ch, "base": base})
             meta.append((fam, ch))
-            base += len(ch)
     pj = pool_jobs(tier, seed)
     for j in pj:
         jobs.append(j)
@@ -158,12 +163,14 @@ def check(pid, tier, regen=False):
 
     bad, stats = C.pipeline("w_store", jobs, "TraceStore.tla", ttimeout=1500)
     st = C.merge_stats(stats)
+    t_replay = round(time.time() - R.t0 - t_explore, 1)
 
-    exact = C.load_set(f"{pid}-exact.txt")
+    # known failures: exact set of (alphabet, clause, requested key, key of the object that came back)
+    exact = C.load_set(f"{pid}-exact.txt") | (C.load_set(f"{pid}-exact-thorough.txt") if tier == "thorough" else set())
     new_exact = set()
     drift = {}
     seen = set()
-    n_fail = n_known = n_explained = 0
+    n_fail = n_known = n_explained = n_steps_failing = 0
     clauses_at = {}
     for jix, ev, clause, extra in bad:
         if ev["k"] == "trace":
@@ -196,7 +203,23 @@ def check(pid, tier, regen=False):
             continue
         if clause not in VERDICT:
             raise C.MachineryError("unknown clause " + clause)
-        s = C.sig([fam, prefix, clause])
+        so = ev["steps"][step - 1]
+        if clause == "faithful":
+            e = so["e"]
+            al = jobs[jix]["al"]
+            if e[0] == "B":
+                req = al["K"][e[2] - 1]
+            elif e[0] == "V":
+                req = al["V"][e[2] - 1]
+            else:
+                tk = ev["steps"][step - 2]["occ"][so["tgt"] - 1]["k"]
+                req = [tk[0], tk[1], tk[2], tk[3], tk[4] + [al["A"][e[5] - 1]], tk[5]]
+            got = so["occ"][so["ret"] - 1]["k"] if so["ret"] else None
+            s = C.sig([fam, clause, req, got])
+        else:
+            req = got = None
+            s = C.sig([fam, clause, prefix])
+        n_steps_failing += 1
         if s in seen:
             continue
         seen.add(s)
@@ -206,19 +229,19 @@ def check(pid, tier, regen=False):
         n_explained += explained
         if s in exact:
             n_known += 1
-            R.add_known(f"{pid}-{fam}", KNOWN_WHAT.get(fam, "listed failing history") +
-                        " (findings/%s-exact.txt)" % pid)
+            R.add_known(f"{pid}-{fam}", KNOWN_WHAT.get(fam, "listed failing request") +
+                        " [findings/%s-exact*.txt]" % pid)
             continue
-        so = ev["steps"][step - 1]
-        R.add_violation({"property": pid, "clause": clause, "alphabet": fam, "requests": prefix,
+        R.add_violation({"property": pid, "clause": clause, "alphabet": fam, "requests": prefix, "requested": req,
                          "keys": {"K": jobs[jix]["al"]["K"], "A": jobs[jix]["al"]["A"], "V": jobs[jix]["al"]["V"]},
                          "returned": so["occ"][so["ret"] - 1] if so["ret"] else None, "observation": so,
                          "predicted_by_as_coded_model": explained, "sig": s})
     if regen:
-        with open(os.path.join(C.VERIF, "findings", f"{pid}-exact.txt"), "w") as f:
+        name = f"{pid}-exact.txt" if tier == "quick" else f"{pid}-exact-thorough.txt"
+        with open(os.path.join(C.VERIF, "findings", name), "w") as f:
             for s in sorted(new_exact):
                 f.write(s + "\n")
-        print(f"regenerated findings/{pid}-exact.txt with {len(new_exact)} entries")
+        print(f"regenerated findings/{name} with {len(new_exact)} entries")
         R.violations = []
 
     # every action of the model must have been exercised on the real code
@@ -243,10 +266,12 @@ def check(pid, tier, regen=False):
                              "annotation_values": len(spec[f]["al"]["A"]), "bvv_requests": len(spec[f]["al"]["V"])}
                          for f in FAMS},
         "steps_validated": st.get("steps", 0),
+        "wall_explore_s": t_explore, "wall_replay_validate_s": t_replay,
         "actions_replayed": {k[4:]: v for k, v in st.items() if k.startswith("act_")},
-        "failing_histories": n_fail,
+        "failing_steps": n_steps_failing,
+        "failing_distinct": n_fail,
         "failing_known": n_known,
-        "failing_predicted_by_as_coded_model": n_explained,
+        "failing_distinct_predicted_by_as_coded_model": n_explained,
         "spec_drift_steps": sum(c for c, _ in drift.values()),
         "pools": st.get("pools", 0),
         "pool_nodes": st.get("pool_nodes", 0),
